@@ -61,14 +61,14 @@ var allOps = []string{
 	"add", "add", "add", "append", "concat", "rename", "rename", "renameregexp", "addid", "cleannames", "trimnames",
 	"trimnamesauto", "sort", "shuffle", "filterlength", "dedup", "rmgapseqs", "rmcharseqs", "rmgapsites", "rmcharsites", "rmmajsites",
 	"translate", "revcomp", "revcompsome", "toupper", "tolower", "trimseqs", "compress", "replace", "clone", "sample",
-	"clear", "setchar", "replacechar", "unalign", "setpolicy", "autoalphabet", "autoalphabet", "setalphabet",
+	"clear", "setchar", "replacechar", "unalign", "setpolicy", "autoalphabet", "autoalphabet", "setalphabet", "codonalign", "identical",
 }
 
 var profiles = []profile{
 	{"general", allOps},
 	{"general", allOps},
 	{"names", []string{"rename", "rename", "renameregexp", "addid", "cleannames", "trimnames", "trimnamesauto", "sort", "add", "add",
-		"concat", "replacechar", "revcompsome", "append", "shuffle", "clone", "dedup", "setpolicy", "sample"}},
+		"concat", "replacechar", "revcompsome", "append", "shuffle", "clone", "dedup", "setpolicy", "sample", "codonalign", "identical"}},
 	{"columns", []string{"add", "add", "append", "rmgapsites", "rmcharsites", "rmmajsites", "trimseqs", "compress", "translate", "concat", "replace",
 		"clear", "rmgapseqs", "filterlength", "setchar", "clone", "sample", "setpolicy", "autoalphabet", "dedup"}},
 	{"rows", []string{"add", "add", "add", "append", "filterlength", "filterlength", "dedup", "rmgapseqs", "rmcharseqs", "clear", "sample",
@@ -194,6 +194,12 @@ func drawOp(t *rapid.T, menu []string, chars string) opRec {
 		op.N = []int{in(0, len(replMenu)-1, "rule")}
 	case "setalphabet":
 		op.N = []int{in(0, 4, "alphabet")}
+	case "codonalign":
+		op.N = []int{in(0, 7, "extra"), rapid.SampledFrom([]int{-1, -1, -1, -1, 0, 1, 2}).Draw(t, "omit"), in(0, 7, "victim")}
+		op.S = []string{gen.SeqN(t, "ACGTacgtN", in(1, 7, "len"))}
+		op.B = []bool{in(0, 9, "wrongset") == 0}
+	case "identical":
+		op.N = []int{in(0, 4, "mode"), in(0, 7, "row"), in(0, 11, "site")}
 	case "clone", "unalign", "setpolicy":
 		op.N = []int{in(0, 3, "policy")}
 		op.B = []bool{in(0, 2, "asbag") == 0} // clone: CloneSeqBag() even on an alignment
@@ -596,6 +602,10 @@ func canonicalOps() []opRec {
 		{Op: "replacechar", N: []int{1, 3, 0}, S: []string{"T", "nosuch"}},
 		{Op: "replacechar", N: []int{-1, 0, 0}, S: []string{"T", "nosuch"}},
 		{Op: "unalign", N: []int{0}},
+		{Op: "codonalign", N: []int{3, -1, 1}, S: []string{"ACGTTA"}},
+		{Op: "codonalign", N: []int{4, -1, 1}, S: []string{"ACGTTA"}},
+		{Op: "identical", N: []int{0, 0, 0}},
+		{Op: "identical", N: []int{1, 1, 2}},
 		{Op: "autoalphabet"},
 		{Op: "setalphabet", N: []int{0}},
 		{Op: "setalphabet", N: []int{1}},
